@@ -1224,6 +1224,9 @@ def nested_kinds_for(ctx, outer_async, position):
 def initial_operand(ctx, inv, t0):
     e = ctx.ev('Init', t0[0] in ('Opt', 'Res'))
     expr = 'w::init::<%s>(%d)' % (rs(t0), e)
+    if ctx.chance(ctx.p.get('initfn', 0.04)):
+        # a zero-argument call whose callee is itself a call (the whole expression, callee included, is the branch's value)
+        return Operand(('w::init_fn::<%s>(%d)()' if ctx.chance(0.6) else '(w::init_fn::<%s>(%d))()') % (rs(t0), e))
     if ctx.p.get('captures', 0.15) > 0 and ctx.chance(ctx.p.get('captures', 0.15)):
         return Operand(expr, cap=(silent_cap(ctx) if ctx.chance(0.35) else new_cap(ctx)))
     return Operand(expr)
@@ -1598,7 +1601,7 @@ def ref_expr(inv, top=False):
                 chain = ref_apply(recv, b.steps[k])
                 L.append('let mut %s = w::seg(&%s, %d, %d, || %s);' % (v, ig, b.index, k, chain))
         jmode = joiner['mode'] if (joiner is not None and len(active) > 1) else None
-        if jmode in ('eager', 'lazy', 'async', 'async_lazy', 'async_transpose'):
+        if jmode in ('eager', 'lazy', 'lazy_fn', 'async', 'async_lazy', 'async_transpose'):
             # the joiner stamps every value it hands back (wrapped values included)
             for b in active:
                 v = var_of(inv, b)
@@ -1869,6 +1872,11 @@ JOINER_BODIES = {
 
 
 def joiner_macro(name, ev, mode, fut):
+    if mode == 'lazy_fn':
+        # a joiner with FUNCTION-call semantics: what it is handed (the tuple of closures) is evaluated BEFORE the joiner starts,
+        # so anything of a branch that runs while the arguments are built is seen in front of the joiner event
+        return ('macro_rules! %s { ($($x:expr),*) => {{ let __t = ($($x,)*); w::joiner(%d, 0usize $(+ { let _ = stringify!($x); 1usize })*); '
+                'w::jst(%d, w::CallAll::call_all(__t)) }}; }' % (name, ev, ev))
     body = JOINER_BODIES[mode].format(ev=ev, fut=fut)
     return ('macro_rules! %s { ($($x:expr),*) => {{ w::joiner(%d, 0usize $(+ { let _ = stringify!($x); 1usize })*); %s }}; }'
             % (name, ev, body))
@@ -1876,8 +1884,8 @@ def joiner_macro(name, ev, mode, fut):
 
 OPT_VARIANTS = {
     # family -> [(variant, kinds or None)]
-    ('sync', False): [('eager', ['join']), ('lazy', ['join']), ('handles', ['join_spawn', 'spawn']), ('noop', None)],
-    ('sync', True): [('eager', ['try_join']), ('lazy', ['try_join']), ('try_notranspose', ['try_join']), ('handles', ['try_join_spawn', 'try_spawn']), ('noop', None)],
+    ('sync', False): [('eager', ['join']), ('lazy', ['join']), ('lazy_fn', ['join']), ('handles', ['join_spawn', 'spawn']), ('noop', None)],
+    ('sync', True): [('eager', ['try_join']), ('lazy', ['try_join']), ('lazy_fn', ['try_join']), ('try_notranspose', ['try_join']), ('handles', ['try_join_spawn', 'try_spawn']), ('noop', None)],
     ('async', False): [('async', None), ('async_lazy', ['join_async']), ('fcp', None), ('async_opaque', None)],
     ('async', True): [('async_try', None), ('async_transpose', None), ('fcp', None), ('async_try_opaque', None)],
 }
@@ -1890,6 +1898,8 @@ def gen_opts(pid, family, variant, kinds, seed, fut='::futures', over=None):
         prof.update(branches=(2, 5), handler=0.3, names=0.15, captures=0.15)
         if over:
             prof.update(over)
+        if variant == 'lazy_fn':
+            prof['initfn'] = 0.6
         if variant == 'try_notranspose':
             # equal depths only: a branch that finished earlier would be handed to the final transposer unwrapped
             prof['depth_profile'] = lambda r, nb: [r.choice([1, 1, 2, 3])] * nb
@@ -1916,7 +1926,7 @@ def gen_opts(pid, family, variant, kinds, seed, fut='::futures', over=None):
             extra = joiner_macro(name, e, variant, fut)
             top.joiner = dict(ev=e, mode=variant)
             opts.append('custom_joiner(%s!)' % name)
-        if variant in ('lazy', 'async_lazy'):
+        if variant in ('lazy', 'lazy_fn', 'async_lazy'):
             opts.append('lazy_branches(true)')
         if variant == 'try_notranspose':
             opts.append('transpose_results(false)')
@@ -1932,7 +1942,7 @@ def gen_opts(pid, family, variant, kinds, seed, fut='::futures', over=None):
                 noops.append('transpose_results(false)')
         else:
             spawnish = kinds is not None and any('spawn' in k for k in kinds)
-            if variant not in ('lazy',) and not spawnish and kinds is not None:
+            if variant not in ('lazy', 'lazy_fn') and not spawnish and kinds is not None:
                 noops.append('lazy_branches(false)')
             if spawnish:
                 noops.append('lazy_branches(true)')
@@ -2068,7 +2078,18 @@ def slice_programs(slice_name, tier, master_seed, base_id):
         for fam in FAMILIES:
             for (variant, kinds) in OPT_VARIANTS[fam]:
                 for r in range(reps):
-                    progs.append(gen_opts(base_id + i, fam, variant, kinds, subseed(master_seed, 'opts', fam, variant, r)))
+                    pr = gen_opts(base_id + i, fam, variant, kinds, subseed(master_seed, 'opts', fam, variant, r))
+                    if variant == 'lazy_fn' and r == 0:
+                        # skeleton: a branch whose whole share of a joined step is the zero-argument call `w::init_fn(e)()`
+                        import re as _re5
+                        pat = _re5.compile(r'(^|, |\) )(let (mut )?\w+ = )?\(?w::init_fn::<[^()]*>\(\d+\)\)?\(\)( ~|,|$)')
+                        att = 0
+                        while not any(pat.search(b) for b in [pr.text()]) and att < 300:
+                            att += 1
+                            pr = gen_opts(base_id + i, fam, variant, kinds, subseed(master_seed, 'opts', fam, variant, r, 'sk', att))
+                        if not pat.search(pr.text()):
+                            sys.stderr.write('SKELETON-UNMET slice=opts tag=sk-lazyfn-bare family=%s\n' % (fam,))
+                    progs.append(pr)
                     i += 1
         return progs
     prof = dict(PROFILES[slice_name])
